@@ -272,7 +272,7 @@ def run(chk):
     for c in progs:
         p = c["prog"]
         nodes = [{"name": "Aaa1", "kind": akind[p["carrier"]], "renamed": False},
-                 {"name": "Bbb2", "kind": p["bkind"], "renamed": p["renamed"]}]
+                 {"name": {"upper": "Bbb2", "lower_snake": "bbb_t", "underscore": "_Bbb"}[p.get("bname", "upper")], "kind": p["bkind"], "renamed": p["renamed"]}]
         programs.append((nodes, [{"src": 0, "dst": 1, "carrier": p["carrier"], "wrapper": p["wrapper"], "ovr": p["ovr"]}], c["collected"]))
         predicted_missed += 0 if c["collected"] else 1
     chk.extra["model_predicts_uncollected_placements"] = predicted_missed
